@@ -141,8 +141,9 @@ func (sd *c09Side) run(c *harness.Ctx, ending *bool, dir int) {
 			}
 		}
 		if sd.iat == 0 && len(ws) != 1 {
-			c.Violate("C09/iat0-burst-split", "%s iat-mode 0: one application write produced %d underlying writes", sd.name, len(ws))
-			return
+			// (how many writes carry a burst is not part of the property: only
+			// where the burst ends is.  Counted, not judged.)
+			c.Feature("iat0-burst-in-several-writes")
 		}
 		if !constrained {
 			continue
@@ -251,11 +252,11 @@ func runC09Frequencies(c *harness.Ctx) {
 				return
 			}
 			ws := under.Writes[before:]
-			if len(ws) != 1 {
-				c.Violate("C09/iat0-burst-split", "frequency run: %d wire writes for one application write", len(ws))
-				return
+			total := 0
+			for _, x := range ws {
+				total += x.N // a burst is judged by where it ends, however many writes carry it
 			}
-			if idx, ok := byLen[ws[0].N]; ok {
+			if idx, ok := byLen[total]; ok {
 				counts[i][idx]++
 			} else {
 				unknown[i]++
@@ -382,6 +383,23 @@ func runC09(c *harness.Ctx) {
 	var clientGot int64 // bytes the client application has received from the server
 	cs := &c09Side{name: "c", under: link.A, plan: directed("cw", 5), iat: iat, table: T}
 	ss := &c09Side{name: "s", under: link.B, plan: directed("sw", 5), iat: iat, table: T, checkFrom: func() bool { return true }}
+	if iat == 0 && t.Draw("huge", 8) == 7 {
+		// one very large write whose encoded length lands around a power of two
+		// (64 KiB .. 1 MiB of wire bytes): where buffers are flushed or grown
+		k := 16 + t.Draw("huge.k", 5)
+		W := 1<<uint(k) + t.Draw("huge.delta", 3*1448) - 1448
+		q, rem := W/1448, W%1448
+		sz := q * 1427
+		if rem >= 22 {
+			sz += rem - 21
+		}
+		side := []*c09Side{cs, ss}[t.Draw("huge.side", 2)]
+		side.plan = append(side.plan, writePlan{Size: sz})
+		link.AB.Policy, link.BA.Policy = simnet.ChunkAll, simnet.ChunkAll
+		link.AB.MaxRead, link.BA.MaxRead = 0, 0
+		c.S.MaxSteps *= 4
+		c.Feature(fmt.Sprintf("huge-write-around-2^%d-wire-bytes", k))
+	}
 	cs.checkFrom = func() bool { return clientGot > 0 }
 	clientWaits := t.Draw("cwait", 2) == 1 // client writes only after it has seen server payload
 	c.Info["client_writes"], c.Info["server_writes"], c.Info["client_waits_for_server_data"] = cs.plan, ss.plan, clientWaits
